@@ -947,7 +947,7 @@ class HyperbandScheduler(
                     self.metric: result[self.metric],
                     self._resource_attr: resource,
                 }
-                record.keep_case = milestone_reached
+                record.keep_case = milestone_reached or resource in self.rung_levels
                 if do_update:
                     largest_update_resource = record.largest_update_resource
                     if largest_update_resource is None:
